@@ -5,7 +5,7 @@ Tie: translator translate/gen_rules.py; correspondence streams
   `rules-ast`     random tuple trees (well-shaped, with bare groups, and off-shape) → real Rules.from_ast / pretty / Pattern.make /
                   gram_check.render_rules vs the model
   `rules-text`    real pretty(g) → real gram tokenizer → real parse with gram_rules() vs the model engine on the same tokens;
-                  the spec function toAst vs the real parse of the printout (rule sets without bare groups)
+                  the spec function toAst vs the real parse of the printout
 Search (real code only):
   `round-trip`    from_ast(parse(pretty(g))) == g on generated grammars (quoting/escape cases included)
   `fixed-points`  gram.lark parsed with the built-in rules yields those rules; gram_check's rendering of each shipped .lark equals
@@ -200,14 +200,14 @@ def stream_rules_text(ctx: Ctx) -> Stream:
 			continue
 		ops = [f'compile\t{hx(text)}\t{gramlib.toks_field(tokens, world.regexps)}']
 		real = [gramlib.real_parse_line(k, payload)]
-		if kind == 'plain' and k == 'ok' and not any(s.endswith('\\') for s in string_terminals(real_from_ast(tree)[1])):
-			# the spec-side toAst is the tree the meta-grammar assigns to the printout
+		if kind in ('plain', 'bare') and k == 'ok':
+			# the spec-side toAst is the tree the meta-grammar assigns to the printout (hypothesis of C12.text_rt_partial)
 			ops.append(f'toast\t{gramlib.tentry_sexp(tree)}')
 			real.append('ok ' + gramlib.tentry_sexp(payload))
 		cases.append(({'kind': kind, 'outcome': k}, ops, real))
 	st = common.correspond('rules-text', cases, 'rules', classify=lambda d: f"{d['kind']}:{d['outcome']}")
 	st.note = ('real Rules.pretty() of random rule sets (and the two shipped .lark files, and damaged printouts) lexed by the real gram_tokenizer; '
-		'real SyntaxParser(gram_rules()) vs the model engine on the same tokens; for rule sets without bare groups the real parse equals the spec function toAst')
+		'real SyntaxParser(gram_rules()) vs the model engine on the same tokens; the real parse of every printout equals the spec function toAst (the hypothesis of C12.text_rt_partial)')
 	return st
 
 
@@ -215,11 +215,33 @@ def stream_rules_text(ctx: Ctx) -> Stream:
 # search
 
 
+def has_nested_optional(p: Any) -> bool:
+	"""`[ … ]` whose content itself begins and ends with a bracketed group (`[[a] b [c]]`, `[[a]]`)."""
+	from rogw.tranp.implements.syntax.tranp.rule import Operators, Patterns, Repeators
+	if not isinstance(p, Patterns):
+		return False
+	if p.rep == Repeators.OneOrEmpty and p.entries:
+		inner = p.entries
+		if len(inner) == 1 and isinstance(inner[0], Patterns) and inner[0].rep == Repeators.NoRepeat and inner[0].op == Operators.And and inner[0].entries:
+			inner = inner[0].entries
+		first, last = inner[0], inner[-1]
+		if all(isinstance(e, Patterns) and e.rep == Repeators.OneOrEmpty for e in (first, last)):
+			return True
+	return any(has_nested_optional(e) for e in p.entries)
+
+
 def rt_key(rules: Any) -> str:
-	if rules_have_bare_group(rules):
-		return 'text-rt:bare-group-loses-parentheses'
-	if any(s.endswith('\\') for s in string_terminals(rules)):
+	"""Class of a failing round trip by the features of the rule set (first match; `other` = none of the known shapes)."""
+	pats = list(rules._rules.values())
+	if any(has_nested_optional(p) for p in pats):
+		return 'text-rt:optional-group-edged-by-optional-groups'
+	terms = string_terminals(rules)
+	if any(s.endswith('/') or s.startswith('/') for s in terms if s not in ('/', '//')):
+		return 'text-rt:terminal-with-slash-at-its-edge'
+	if any(s.endswith('\\') for s in terms):
 		return 'text-rt:terminal-ends-with-backslash'
+	if rules_have_bare_group(rules):
+		return 'text-rt:group-without-repeat-marker'
 	return 'text-rt:other'
 
 
@@ -411,9 +433,12 @@ def search_fixed_points(ctx: Ctx) -> SearchResult:
 STATEMENTS = {
 	'ast_rt_from_to': 'fromAst (toAst g) = g for every canonical rule set g (all shapes the meta-grammar can express, incl. bare groups)',
 	'ast_rt_to_from': 'toAst (fromAst t) = t for every well-shaped tuple tree t',
+	'ast_rt_shipped': 'gram_rules() and py_rules() are canonical',
 	'fixed_gram': 'the model engine with the built-in rules on the real token list of gram.lark yields the literal of gram_rules.py, and from_ast of it is gram_rules() (kernel-evaluated)',
 	'fixed_py': 'compiling the real token list of py_gram.lark yields, through render_rules, exactly the text of py_rules.py; its tree equals the literal of py_rules.py up to the renderer\'s \\\' fix-up; from_ast of the literal is py_rules() (kernel-evaluated)',
-	'text_rt_counterexample': 'Prettier is not injective on canonical rule sets (x := a (b | c) and x := a b | c print alike), so NO lexer/parser can make from_ast(parse(lex(pretty g))) = g hold for all g',
+	'text_rt_partial': 'the text-level law holds for every canonical g whose printout the engine parses into toAst g (the hypothesis the rules-text correspondence checks on the real code)',
+	'text_rt_f7_regression': 'after fix 87005c8 x := a (b | c) and x := a b | c print differently (the repaired finding F7)',
+	'text_rt_regression': 'kernel-evaluated: for every recorded witness the model printout equals the real printout and the model engine on the real tokens gives the rule set back',
 	'accept_same': 'rule sets that are equal as data give the same parse result on every token list',
 }
 
@@ -428,9 +453,9 @@ def run(ctx: Ctx) -> int:
 	return common.finish(ctx, proof, streams, searches, translate_ok=ok, translate_msg=msg,
 		statements=STATEMENTS,
 		partial={
-			'proved': 'AST-level round trip (both directions), both fixed points as kernel-evaluated computations on the real token lists, non-injectivity of the printer (text-level law false), accept_same',
+			'proved': 'AST-level round trip (both directions), both fixed points as kernel-evaluated computations on the real token lists, text-level law reduced to one hypothesis (text_rt_partial) and kernel-checked on the recorded witnesses, accept_same',
 			'correspondence_only': 'from_ast / Prettier / Pattern.make / render_rules / the engine under gram_rules() equal the model on random and shipped inputs; toAst equals the real parse of a printout',
-			'search_only': 'text-level round trip for rule sets without bare groups (text_rt_partial is not proved), module texts on disk, compiled vs original rules on sentences',
+			'search_only': 'text-level round trip in general (text_rt_statement: needs a lexer model and an inversion argument for the engine on the meta-grammar), module texts on disk, compiled vs original rules on sentences',
 		},
 		assumptions=[
 			'symbol names, terminals and texts are ASCII (Pattern.make\'s \\w is modelled for ASCII)',
